@@ -2,6 +2,7 @@ package sim
 
 import (
 	"fmt"
+	"math/big"
 	"os"
 )
 
@@ -199,6 +200,48 @@ func c08Plan(p *PRNG, cfg Config, tier string) Plan {
 	if f, ok := extraHostile["avs"]; ok {
 		plan = f(p, cfg, plan)
 	}
+	plan = tiePattern(p, cfg, plan)
+	return plan
+}
+
+// tiePattern makes two stakers hold exactly the same USD value with one operator through two
+// DIFFERENT assets of the chain's own AVS, and then keeps fees flowing: sorts with ties and
+// map-ordered collections only show an order dependence when at least two items tie.
+func tiePattern(p *PRNG, cfg Config, plan Plan) Plan {
+	if cfg.NStakers < 2 || len(plan.Blocks) < 4 || !p.Chance(2, 3) {
+		return plan
+	}
+	var df []int
+	for i, a := range cfg.Assets {
+		if (a.InDogfood || i == 0) && !a.NST {
+			df = append(df, i)
+		}
+	}
+	if len(df) < 2 {
+		return plan
+	}
+	i, j := df[0], df[1+p.Intn(len(df)-1)]
+	pi, ok1 := new(big.Int).SetString(cfg.Assets[i].Price, 10)
+	pj, ok2 := new(big.Int).SetString(cfg.Assets[j].Price, 10)
+	if !ok1 || !ok2 || pi.Sign() <= 0 || pj.Sign() <= 0 {
+		return plan
+	}
+	// value V = pi*pj*k USD: amount_i = pj*k*10^(dec_i+pdec_i), amount_j = pi*k*10^(dec_j+pdec_j)
+	k := big.NewInt(int64(p.Range(1, 9)))
+	pow := func(a AssetCfg) *big.Int {
+		return new(big.Int).Exp(big.NewInt(10), big.NewInt(int64(a.Decimals)+int64(a.PriceDec)), nil)
+	}
+	ai := new(big.Int).Mul(new(big.Int).Mul(pj, k), pow(cfg.Assets[i]))
+	aj := new(big.Int).Mul(new(big.Int).Mul(pi, k), pow(cfg.Assets[j]))
+	if ai.BitLen() > 90 || aj.BitLen() > 90 {
+		return plan
+	}
+	o := p.Intn(cfg.NVals)
+	s1, s2 := cfg.NOps, cfg.NOps+1
+	b := 1 + p.Intn(2)
+	plan.Blocks[b].Ops = append(plan.Blocks[b].Ops,
+		Op{K: "dep", A: s1, B: i, Amt: "=" + ai.String()}, Op{K: "del", A: s1, B: i, C: o, Amt: "=" + ai.String(), N: 900001},
+		Op{K: "dep", A: s2, B: j, Amt: "=" + aj.String()}, Op{K: "del", A: s2, B: j, C: o, Amt: "=" + aj.String(), N: 900002})
 	return plan
 }
 
